@@ -74,7 +74,8 @@ class CGraph(engine.Graph):
     def rule_name(s, e):
         if e.phony: return 'phony'
         return getattr(e, 'rname', None) or 'r%d' % e.idx
-    def manifest(s):
+    def is_split(s): return False          # the cleaner scenarios keep one manifest file
+    def manifest(s, part=False):
         L = []
         for p, d in sorted(s.pools.items()): L += ['pool %s' % p, '  depth = %d' % d]
         def binds(e, ind):
